@@ -175,7 +175,30 @@ def validate_number_of_cores(
             max_workers = multiprocessing.cpu_count()
     elif max_cores is not None and max_workers is None:
         max_workers = int(max_cores / cores_per_worker)
+    if max_workers < 1:
+        raise ValueError(
+            "The computational resources are not sufficient to start a single worker."
+        )
     return max_workers
+
+
+def check_resource_limits(
+    max_cores: Optional[int] = None,
+    max_workers: Optional[int] = None,
+    cores_per_worker: int = 1,
+    threads_per_core: int = 1,
+) -> None:
+    """
+    Check that the limits of an executor without block allocation allow to execute at least one function call.
+    """
+    if max_cores is not None and max_cores < cores_per_worker * threads_per_core:
+        raise ValueError(
+            "The number of cores per function call is larger than the available number of cores."
+        )
+    if max_cores is None and max_workers is not None and max_workers < 1:
+        raise ValueError(
+            "The computational resources are not sufficient to start a single worker."
+        )
 
 
 def check_file_exists(file_name: str):
